@@ -48,6 +48,9 @@ LastIndexOfByte(v, c) ==
   LET S == {p \in 1..Len(v) : v[p] = c} IN IF S = {} THEN -1 ELSE SetMax(S) - 1
 \* all non-overlapping occurrences, left to right (nd non-empty)
 RECURSIVE ReplaceAll(_, _, _)
+\* the replacement before every byte and at the end ("abc".replace("", "-") = "-a-b-c-" in some languages)
+RECURSIVE Interleave(_, _)
+Interleave(v, r) == IF v = <<>> THEN r ELSE r \o <<v[1]>> \o Interleave(Tail(v), r)
 ReplaceAll(v, nd, rp) ==
   LET p == IndexFrom(v, nd, 0) IN
   IF p = -1 THEN v ELSE Take(v, p) \o rp \o ReplaceAll(Drop(v, p + Len(nd)), nd, rp)
@@ -100,7 +103,9 @@ Ops == Mutators \cup Queries
 
 \* The domain of the property: which operation instances the quantifier ranges over.  Operations that are C-string
 \* based in the interface (they take or scan NUL-terminated text) are only in the domain on NUL-free operands;
-\* replace with an empty needle has no reference semantics; printf must not be given its own text as argument.
+\* replace with an empty needle has no agreed result (unchanged, or the replacement between all bytes) but it has to
+\* return; the byte-wise operations (case mapping, replacing one byte value) cover all length() bytes, also behind an
+\* embedded NUL; printf must not be given its own text as argument.
 InDomain(op, s, a) ==
   LET v == s.val[a.i] IN
   CASE op = "ext"       -> a.i \in Exts /\ Definite(a.d) /\ a.n \in 0..255
@@ -112,10 +117,10 @@ InDomain(op, s, a) ==
     [] op \in {"copy", "assign", "append", "prepend"} -> a.k \in Vars
     [] op = "appendc"   -> a.n \in 0..255
     [] op \in {"clear", "detach", "lpush", "cstr", "cstrm"} -> TRUE
-    [] op = "replacec"  -> NulFree(v) /\ a.n \in 1..255 /\ a.n2 \in 0..255
-    [] op = "replace"   -> a.k \in Vars /\ a.m \in Vars /\ NulFree(v) /\ NulFree(s.val[a.k]) /\ s.val[a.k] # <<>>
+    [] op = "replacec"  -> a.n \in 1..255 /\ a.n2 \in 0..255
+    [] op = "replace"   -> a.k \in Vars /\ a.m \in Vars /\ NulFree(v) /\ NulFree(s.val[a.k])
                            /\ Definite(s.val[a.m])
-    [] op \in {"lower", "upper"} -> NulFree(v)
+    [] op \in {"lower", "upper"} -> Definite(v)
     [] op = "trim"      -> NulFree(v) /\ NulFree(a.d)
     [] op = "printf"    -> a.k \in Vars /\ a.k # a.i /\ NulFree(s.val[a.k])
     [] op = "printfw"   -> a.n2 \in 1..400
@@ -154,7 +159,9 @@ Step(op, s, a) ==
     [] op = "resize"    -> SetVal(s, a.i, Resized(v, a.n))
     [] op \in {"reserve", "detach"} -> { s }
     [] op = "replacec"  -> SetVal(s, a.i, ReplaceByte(v, a.n, a.n2))
-    [] op = "replace"   -> SetVal(s, a.i, ReplaceAll(v, s.val[a.k], s.val[a.m]))
+    [] op = "replace"   -> IF s.val[a.k] = <<>>
+                           THEN SetVal(s, a.i, v) \cup SetVal(s, a.i, Interleave(v, s.val[a.m]))      \* empty needle: either reading
+                           ELSE SetVal(s, a.i, ReplaceAll(v, s.val[a.k], s.val[a.m]))
     [] op = "lower"     -> SetVal(s, a.i, Lower(v))
     [] op = "upper"     -> SetVal(s, a.i, Upper(v))
     [] op = "trim"      -> SetVal(s, a.i, Trimmed(v, ByteSet(a.d)))
